@@ -11,6 +11,7 @@ import XsdataModel.Codegen.Circular
 import XsdataModel.Codegen.Styles
 import XsdataModel.Codegen.Cache
 import XsdataModel.Codegen.Overrides
+import XsdataModel.Codegen.CompoundName
 open Lean Proto Py Xs.Codegen
 
 namespace OpsCodegen
@@ -261,6 +262,13 @@ def run (op : String) (a : Json) : Option (Except String Json) :=
       let cleanUri : Str → Str := fun u => ((clean.find? (·.1 == u)).map (·.2)).getD u
       let out := runOverrides cleanUri st order
       pure <| ok (jList (fun c => jList (fun x => Json.arr #[jStr x.name, jNat x.minOccurs, jNat x.maxOccurs]) c.attrs) out)
+  | "gen.choose_name" => some do
+      let cfg : CompoundCfg := { defaultName := ← getStr a "default_name", useSubstitutionGroups := ← getBool a "use_substitution_groups",
+                                 forceDefaultName := ← getBool a "force_default_name", maxNameParts := ← getNat a "max_name_parts" }
+      let names ← getStrList a "names"
+      let subs ← getStrList a "substitutions"
+      let reserved ← getStrList a "reserved"
+      pure <| ok (jStr (chooseName cfg names subs (reserved.map alnum)))
   | "gen.process_order" => some do
       let us ← strPairs (a.getObjValD "uris")
       let classify : Str → ResType := fun u => ((us.find? (·.1 == u)).map (fun p => resType p.2)).getD .unknown
